@@ -24,7 +24,7 @@ TEXT = {
     "C04": ("C04_required_missing, C04_optional_missing, C04_shallow, C04_shallow_single, C04_ctor_not_run (a constructor with a missing direct dependency is not entered and logs nothing), C04_optional_absorbs_only_missing are proved", "verdict class, missing keys, zero-valued optional arguments compared with the model"),
     "C05": ("graph half proved at full strength for every graph size: C05_dfs_sound, C05_path, C05_dfs_total, C05_dfs_complete (Dfs.isAcyclic = internal/graph.IsAcyclic); the on-stack guard (C20_onstack) is proved to stop re-entry",
             "K-graph: IsAcyclic via hook vs model, exhaustive on all digraphs with <= 4 nodes + random graphs, each answer also judged on its own; container level: cycle verdicts, cycle lengths, process survival compared with the model under a cycle-heavy generator profile"),
-    "C06": ("(theorems pending: C06_unchanged)", "metamorphic twins on the real library: history with / without each rejected Provide/Decorate followed by a probe sweep must behave identically; full traces compared with the model"),
+    "C06": ("C06_provide_unchanged proved at full strength: whenever Provide returns an error (any cause, any state, with or without Export, cycle in the target or any descendant) the container equals the one before in every component except the isVerifiedAcyclic flags — proved through the undo actually performed (rollbackProvide: graph holders truncated, node tables truncated, providers of the target restored), with the invariant `Work` over everything the attempt may have done; C06_decorate_unchanged (a rejected Decorate changes orphan graph nodes only), C06_no_execution", "metamorphic twins on the real library: history with / without each rejected Provide/Decorate followed by a probe sweep must behave identically; full traces compared with the model"),
     "C07": ("C07_failed_writes_nothing / C07_failed_deco_writes_nothing (a failing execution changes no cache, flag or registry entry), C07_retry_ctor / C07_retry_deco (after a failing call the node is not built, off the stack / ready, hence executed again on the next demand), C07_others_kept are proved; root cause: C13_ctor_outcome / C13_deco_outcome",
             "trace predicate: no token of a failed execution is ever delivered, root cause of the demanding Invoke is the first failure; traces compared with the model under a fault-heavy profile"),
     "C08": ("(theorems pending)", "wiring across scope trees (up to 7 scopes, Export) compared with the model"),
@@ -35,7 +35,7 @@ TEXT = {
             "wiring with decorators at several scope levels compared with the model"),
     "C13": ("all classification statements proved for every error value the model can build: C13_root_is_leaf, C13_errorsIs_root, C13_user_identity, C13_dig, C13_panic_root, C13_cycle_iff, C13_wrap_*, C13_ctor_outcome, C13_deco_outcome",
             "K-error: chains of wrapper kinds, RootCause, errors.Is, IsCycleDetected, CanVisualizeError of every returned error and callback error compared with the model; trace predicate pred_c13 judges the implementation's own classification"),
-    "C14": ("(theorems pending: C14_unchanged = C06_unchanged; totality is by construction of the model)",
+    "C14": ("C14_nonfunc (nil / non-function / nil-function values rejected, container unchanged), C14_bad_options, C14_rejected_decorate, C14_rejected_invoke_parse (only orphan group-parameter graph nodes are added), C14_no_events, and C06_provide_unchanged for rejected Provides are proved; totality of the API is by construction of the model",
             "grammar-based malformed inputs (55% of registrations): verdict classes compared with the model; any panic escaping dig or process failure is a violation with the program as replay; C06 twins"),
     "C15": ("(theorems pending)", "Info structs (the parse made visible) and verdicts compared with the model"),
     "C16": ("(theorems pending)", "metamorphic twins on the real library: permuted registration blocks, scope creation moved earlier, DeferAcyclicVerification on/off against the eager run"),
